@@ -1,6 +1,6 @@
 (** C18 — half-close and close behave per protocol for every frame sequence. *)
 From Coq Require Import List NArith Bool.
-From MM Require Import Model.Stream Proofs.StreamProofs Generated.C18.
+From MM Require Import Model.Stream Proofs.StreamProofs Generated.C18 Generated.C16.
 Import ListNotations.
 Local Open Scope N_scope.
 
@@ -122,6 +122,13 @@ Theorem C18_source_facts :
      and nothing else writes the state *)
   gen_HandleRemoteFinWrite_transition_atomic = true /\ gen_CloseWrite_transition_atomic = true /\
   gen_Close_transition_atomic = true /\
-  gen_state_writers_are_the_transition_functions = true.
+  gen_state_writers_are_the_transition_functions = true /\
+  (* the frames of one stream reach the stream manager in wire order: the read
+     loop picks the lane by frame type only and blocks when it is full, and the
+     ordered lane has one drainer (the frame thread of [thread_prog]) *)
+  gen_readloop_lane_by_type_and_blocking = true /\ gen_ordered_lane_has_one_drainer = true /\
+  (* a relayed CLOSE / RESET / DATA goes to the addressed stream's other end *)
+  gen_forward_ids_handleStreamData = true /\ gen_forward_ids_handleStreamClose = true /\
+  gen_forward_ids_handleStreamReset = true.
 Proof. repeat split; reflexivity. Qed.
 Print Assumptions C18_source_facts.
